@@ -334,6 +334,17 @@ def length_rules(ctx, R="R1"):
            "it have the bond list's width", sa.lineno)
 
 
+def model_table_rule(ctx, rule):
+    """the array handed out for one model of a stack has an annotation TABLE of its own (the arrays in it may be shared like numpy
+    views; the dict that maps names to arrays is the model's: `del model[0]` rebinds its entries)"""
+    ga = ctx.src(ATOMS).func("AtomArrayStack.get_array")
+    whole = [st for st in ast.walk(ga) if isinstance(st, ast.Assign) and any(dotted(t) == "array._annot" for t in st.targets)]
+    ctx.ob(rule, ATOMS, "AtomArrayStack.get_array", "array._annot is a table of its own",
+           all(copycontract.is_fresh(st.value) is True or isinstance(st.value, (ast.Dict, ast.DictComp)) for st in whole),
+           "the array returned for one model shares the stack's annotation dict: deleting atoms from the model rebinds the entries of the "
+           "stack's own table (annotations shorter than the coordinates)", ga.lineno)
+
+
 def run(ctx):
     s = ctx.src(ATOMS)
     idx = ClassIndex(ctx, [ATOMS, BONDS, COPYABLE])
@@ -543,6 +554,7 @@ def run(ctx):
                    copycontract.is_fresh(st.value) is not False,
                    "the array returned for one model shares the stack's BondList object", st.lineno)
 
+    model_table_rule(ctx, "R2.fresh")
     # the constructor that Atom.copy() and every `array[i]` / get_atom() go through takes the caller's coordinates over:
     # they must be copied there (np.array copies; np.asarray / copy=False hand out a view of the array's row)
     from ..exprnorm import summarize
